@@ -14,7 +14,7 @@
     C01_safety / C01_progress) is not proved; the interleavings are covered by the two-peer
     correspondence campaign (harness/props/C01.py). *)
 From IsoTp Require Import Base.Prelude Model.Layer Model.Address Spec.ConfigSpec Spec.Stream Spec.Segment
-  Proofs.RxP Proofs.SegP Proofs.FaultP Proofs.TransferP.
+  Proofs.RxP Proofs.SegP Proofs.FaultP Proofs.TransferP Proofs.TxP Proofs.CoopP.
 
 Theorem C01_segmentation_wellformed : forall c, params_ok (c_p c) -> forall t payload,
   1 <= zlen payload < 2 ^ 32 ->
@@ -50,7 +50,26 @@ Theorem C01_recv_fifo : forall s,
   end.
 Proof. exact recv_fifo. Qed.
 
+(** End to end for one multi-frame message under the cooperative schedule: the frames the sender
+    model emits (First Frame, then Consecutive Frames as the peer grants them) are reassembled by a
+    receiver with the mirrored prefix into exactly the payload, delivered once, with no error on
+    either side and the request completed with success. *)
+Theorem C01_end_to_end_cooperative : forall ca cb, params_ok (c_p ca) -> 0 < p_tbs_ns (c_p ca) ->
+  forall fc, fc_status fc = FS_CTS -> forall a, p_tx_dl (c_p ca) <= a ->
+  forall s rid payload extra t mk, (forall d, f_data (mk d) = d) ->
+  zlen (tx_prefix (c_txa ca)) = c_rx_prefix_size cb ->
+  1 <= zlen payload < 2 ^ 32 -> zlen payload <= p_max_frame_size (c_p cb) -> is_single ca (zlen payload) = false ->
+  exists ff s1,
+    start_request ca (s <| active := Some (fresh_req rid payload extra t) |>) (fresh_req rid payload extra t) a = SRDone s1 [] (Some ff) /\
+    let '(cfs, evs, s') := coop ca fc a (2 * Z.to_nat (n_cf ca (zlen payload))) s1 [] [] in
+    evs = [EDone rid true] /\ tx_state s' = TxIdle /\ active s' = None /\
+    forall srx, rx_state srx = RxIdle ->
+      let '(s2, e2) := rx_run cb srx (map f_data (ff :: cfs)) mk in
+      e2 = [] /\ rx_queue s2 = rx_queue srx ++ [payload] /\ rx_state s2 = RxIdle.
+Proof. exact end_to_end_multi. Qed.
+
 Print Assumptions C01_segmentation_wellformed.
 Print Assumptions C01_messages.
 Print Assumptions C01_transfer.
 Print Assumptions C01_recv_fifo.
+Print Assumptions C01_end_to_end_cooperative.
